@@ -335,10 +335,7 @@ theorem keep_spec (taxa : List Taxon) (rs : Rows) (u : Taxon) :
     · simp [hu, hk]
     · simp [hu, hk, get?_of_not_mem u rs hk]
 
-/-- every binary row operation refuses a matrix over a different namespace (`TaxonNamespaceIdentityError`, a `ValueError`) -/
-theorem namespace_refused (f : Rows → Rows → Rows) (self other : Matrix) (h : other.ns ≠ self.ns) :
-    rowOp f self other = .error .valueError := by
-  simp [rowOp, h]
+/- the namespace guard of the binary row operations: see `rowOp_spec` below -/
 
 /-! ## (c) padding -/
 
@@ -885,5 +882,494 @@ theorem concat_subset_covers (pre post : List Matrix) (m r : Matrix)
     have hlen : ((pre.map (fun x => rowOf t x.rows)).flatten).length = (pre.map (fun x => vectorSize x.rows)).sum :=
       length_flatten_map _ _ pre (fun x hx => hw x (by simp [hx]))
     rw [List.drop_left' hlen, List.take_left' (hw m (by simp))]
+
+end DendroModel.C19
+
+/-! ## success conditions, refusals, subset names, invariants (second round) -/
+namespace DendroModel.C19
+
+/-- what `concatenate` demands of each matrix of the list (its four `raise ValueError` guards):
+    the first matrix's namespace, as many rows as the namespace has taxa and as the first matrix has rows,
+    and all rows of namespace taxa as long as the row of the first taxon -/
+def Concatenable (ns : Nat) (taxa : List Taxon) (nseqs : Nat) (cm : Matrix) : Prop :=
+  cm.ns = ns ∧ cm.rows.length = taxa.length ∧ cm.rows.length = nseqs ∧
+  ∀ p ∈ items taxa cm.rows, p.2.length = (rowOf (taxa.headD 0) cm.rows).length
+
+/-- the state after a successful round: rows extended, one subset appended under the free name, offset advanced -/
+def stepState (st : CState) (cidx : Nat) (cm : Matrix) : CState :=
+  { acc := extendMatrix st.acc cm.rows,
+    subs := st.subs ++ [(freeName st.subs (baseLabel cm cidx), List.range' st.pos (vectorSize cm.rows))],
+    pos := st.pos + vectorSize cm.rows }
+
+/-- the subsets `concatenate` records: per source matrix, in argument order, the first free name for its label
+    (or for `locusNNN`) and the next span -/
+def namedSpans : List (Label × List Nat) → Nat → Nat → List Matrix → List (Label × List Nat)
+  | subs, _, _, [] => subs
+  | subs, pos, cidx, m :: ms =>
+    namedSpans (subs ++ [(freeName subs (baseLabel m cidx), List.range' pos (vectorSize m.rows))])
+      (pos + vectorSize m.rows) (cidx + 1) ms
+
+end DendroModel.C19
+
+namespace DendroModel.C19.Aux
+open DendroModel.C19
+
+theorem concatStep_of (ns : Nat) (t0 : Taxon) (tl : List Taxon) (nseqs : Nat) (st : CState) (cidx : Nat) (cm : Matrix)
+    (hc : Concatenable ns (t0 :: tl) nseqs cm) :
+    concatStep ns (t0 :: tl) nseqs st cidx cm = .ok (stepState st cidx cm) := by
+  obtain ⟨h1, h2, h3, h4⟩ := hc
+  have hany : (items (t0 :: tl) cm.rows).any (fun p => p.2.length != (rowOf t0 cm.rows).length) = false := by
+    simp only [List.any_eq_false, bne_iff_ne, ne_eq, Decidable.not_not]
+    intro p hp
+    simpa using h4 p hp
+  unfold concatStep
+  rw [if_neg (fun h => h h1), if_neg (fun h => h h2), if_neg (fun h => h h3)]
+  simp only []
+  rw [if_neg (by rw [hany]; simp), if_neg (by rw [freeName_fresh]; simp)]
+  rfl
+
+theorem concatStep_not (ns : Nat) (t0 : Taxon) (tl : List Taxon) (nseqs : Nat) (st : CState) (cidx : Nat) (cm : Matrix)
+    (hc : ¬ Concatenable ns (t0 :: tl) nseqs cm) :
+    concatStep ns (t0 :: tl) nseqs st cidx cm = .error .valueError := by
+  unfold concatStep
+  by_cases h1 : cm.ns = ns
+  · rw [if_neg (fun h => h h1)]
+    by_cases h2 : cm.rows.length = (t0 :: tl).length
+    · rw [if_neg (fun h => h h2)]
+      by_cases h3 : cm.rows.length = nseqs
+      · rw [if_neg (fun h => h h3)]
+        have h4 : ¬ ∀ p ∈ items (t0 :: tl) cm.rows, p.2.length = (rowOf t0 cm.rows).length := by
+          intro h4
+          exact hc ⟨h1, h2, h3, by simpa using h4⟩
+        have hany : (items (t0 :: tl) cm.rows).any (fun p => p.2.length != (rowOf t0 cm.rows).length) = true := by
+          simp only [List.any_eq_true, bne_iff_ne, ne_eq]
+          simp only [Classical.not_forall] at h4
+          obtain ⟨p, hp, hne⟩ := h4
+          exact ⟨p, hp, hne⟩
+        simp only []
+        rw [if_pos hany]
+      · rw [if_pos h3]
+    · rw [if_pos h2]
+  · rw [if_pos h1]
+
+theorem concatLoop_ok_iff (ns : Nat) (t0 : Taxon) (tl : List Taxon) (nseqs : Nat) :
+    ∀ (ms : List Matrix) (st : CState) (cidx : Nat),
+      ((∃ st', concatLoop ns (t0 :: tl) nseqs st cidx ms = .ok st') ↔
+        ∀ m ∈ ms, Concatenable ns (t0 :: tl) nseqs m) ∧
+      (∀ e, concatLoop ns (t0 :: tl) nseqs st cidx ms = .error e → e = .valueError) ∧
+      (∀ st', concatLoop ns (t0 :: tl) nseqs st cidx ms = .ok st' →
+        st'.subs = namedSpans st.subs st.pos cidx ms) := by
+  intro ms
+  induction ms with
+  | nil => intro st cidx; simp [concatLoop, namedSpans]
+  | cons cm rest ih =>
+    intro st cidx
+    by_cases hc : Concatenable ns (t0 :: tl) nseqs cm
+    · obtain ⟨ih1, ih2, ih3⟩ := ih (stepState st cidx cm) (cidx + 1)
+      simp only [concatLoop, concatStep_of _ _ _ _ _ _ _ hc, List.mem_cons, forall_eq_or_imp, hc, true_and]
+      refine ⟨ih1, ih2, ?_⟩
+      intro st' h
+      rw [ih3 st' h]
+      simp [namedSpans, stepState]
+    · simp only [concatLoop, concatStep_not _ _ _ _ _ _ _ hc, List.mem_cons, forall_eq_or_imp, hc, false_and]
+      simp
+
+/-- pigeonhole: a duplicate-free list inside another list that is not longer covers it -/
+theorem subset_of_nodup_length (l1 l2 : List Nat) (hnd : l1.Nodup) (hsub : ∀ x ∈ l1, x ∈ l2)
+    (hlen : l2.length ≤ l1.length) : ∀ x ∈ l2, x ∈ l1 := by
+  induction l1 generalizing l2 with
+  | nil =>
+    intro x hx
+    cases l2 with
+    | nil => cases hx
+    | cons a as => simp at hlen
+  | cons a l1 ih =>
+    obtain ⟨ha, hnd'⟩ := List.nodup_cons.mp hnd
+    have ha2 : a ∈ l2 := hsub a (by simp)
+    have hsub' : ∀ x ∈ l1, x ∈ l2.erase a := by
+      intro x hx
+      have hne : x ≠ a := by intro h; subst h; exact ha hx
+      exact (List.mem_erase_of_ne hne).mpr (hsub x (by simp [hx]))
+    have hlen' : (l2.erase a).length ≤ l1.length := by
+      rw [List.length_erase_of_mem ha2]
+      simp at hlen
+      omega
+    intro x hx
+    by_cases hxa : x = a
+    · simp [hxa]
+    · have := ih (l2.erase a) hnd' hsub' hlen' x ((List.mem_erase_of_ne hxa).mpr hx)
+      simp [this]
+
+theorem namedSpans_labels_kept (ms : List Matrix) (labs : List Label) :
+    ∀ (subs : List (Label × List Nat)) (pos cidx : Nat),
+      ms.map Matrix.label = labs.map some →
+      ((subs.map (fun s => lower s.1)) ++ labs.map lower).Nodup →
+      (namedSpans subs pos cidx ms).map Prod.fst = subs.map Prod.fst ++ labs := by
+  induction ms generalizing labs with
+  | nil =>
+    intro subs pos cidx hl _
+    cases labs with
+    | nil => simp [namedSpans]
+    | cons a as => simp at hl
+  | cons m ms ih =>
+    intro subs pos cidx hl hnd
+    cases labs with
+    | nil => simp at hl
+    | cons a as =>
+      simp only [List.map_cons, List.cons.injEq] at hl
+      have hfree : hasSub subs a = false := by
+        simp only [hasSub, List.any_eq_false, beq_iff_eq]
+        intro x hx heq
+        have := (List.nodup_append.mp hnd).2.2 (lower x.1) (List.mem_map.mpr ⟨x, hx, rfl⟩) (lower a) (by simp)
+        exact this heq
+      have hname : freeName subs (baseLabel m cidx) = a := by
+        simp [baseLabel, hl.1, freeName, hfree]
+      simp only [namedSpans, hname]
+      rw [ih as _ _ _ hl.2]
+      · simp
+      · simp only [List.map_append, List.map_cons, List.map_nil, List.append_assoc, List.singleton_append]
+        simpa using hnd
+
+end DendroModel.C19.Aux
+
+namespace DendroModel.C19
+open DendroModel.C19.Aux
+
+/-- (a, e) success conditions of `concatenate`, exactly: over a non-empty namespace the call returns a matrix iff every
+    matrix of the list passes the four documented guards.  In particular no combination of labels (repeated, equal up
+    to case, colliding with generated names, the same object twice) makes it fail: the `add_character_subset` refusal
+    is dead code after the free-name search -/
+theorem concat_ok_iff (m0 : Matrix) (rest : List Matrix) (ht : m0.taxa ≠ []) :
+    (∃ r, concatenate (m0 :: rest) = .ok r) ↔
+      ∀ m ∈ m0 :: rest, Concatenable m0.ns m0.taxa m0.rows.length m := by
+  obtain ⟨t0, tl, htaxa⟩ : ∃ t0 tl, m0.taxa = t0 :: tl := by
+    cases h : m0.taxa with
+    | nil => exact absurd h ht
+    | cons a as => exact ⟨a, as, rfl⟩
+  have key := (concatLoop_ok_iff m0.ns t0 tl m0.rows.length (m0 :: rest) ⟨[], [], 0⟩ 0).1
+  simp only [concatenate, htaxa]
+  rw [← key]
+  constructor
+  · rintro ⟨r, h⟩
+    split at h
+    · cases h
+    · next st hst => exact ⟨st, hst⟩
+  · rintro ⟨st, hst⟩
+    rw [hst]
+    exact ⟨_, rfl⟩
+
+/-- the auditor's form: complete rectangular matrices over one non-empty namespace are always concatenated -/
+theorem concat_succeeds (m0 : Matrix) (rest : List Matrix) (ht : m0.taxa ≠ [])
+    (h : ∀ m ∈ m0 :: rest, Concatenable m0.ns m0.taxa m0.rows.length m) : ∃ r, concatenate (m0 :: rest) = .ok r :=
+  (concat_ok_iff m0 rest ht).mpr h
+
+/-- (e) over a non-empty namespace the only refusal is `ValueError` -/
+theorem concat_error_kind (m0 : Matrix) (rest : List Matrix) (ht : m0.taxa ≠ []) (e : Err)
+    (h : concatenate (m0 :: rest) = .error e) : e = .valueError := by
+  obtain ⟨t0, tl, htaxa⟩ : ∃ t0 tl, m0.taxa = t0 :: tl := by
+    cases h' : m0.taxa with
+    | nil => exact absurd h' ht
+    | cons a as => exact ⟨a, as, rfl⟩
+  have key := (concatLoop_ok_iff m0.ns t0 tl m0.rows.length (m0 :: rest) ⟨[], [], 0⟩ 0).2.1
+  simp only [concatenate, htaxa] at h
+  split at h
+  · next e' he =>
+    simp only [Except.error.injEq] at h
+    subst h
+    exact key e' he
+  · cases h
+
+/-- (e) a list containing a matrix over a different namespace is refused with `ValueError` -/
+theorem concat_refuses_foreign (m0 : Matrix) (rest : List Matrix) (ht : m0.taxa ≠ []) (m : Matrix)
+    (hm : m ∈ m0 :: rest) (hns : m.ns ≠ m0.ns) : concatenate (m0 :: rest) = .error .valueError := by
+  cases hres : concatenate (m0 :: rest) with
+  | error e => rw [concat_error_kind m0 rest ht e hres]
+  | ok r =>
+    have := (concat_ok_iff m0 rest ht).mp ⟨r, hres⟩ m hm
+    exact absurd this.1 hns
+
+/-- (a) which name each recorded subset receives, and which span: exactly `namedSpans` -/
+theorem concat_subset_labels (ms : List Matrix) (r : Matrix) (h : concatenate ms = .ok r) :
+    r.subs = namedSpans [] 0 0 ms := by
+  cases ms with
+  | nil => simp [concatenate] at h
+  | cons m0 rest =>
+    cases htaxa : m0.taxa with
+    | nil =>
+      simp only [concatenate, htaxa, concatLoop, concatStep] at h
+      split at h
+      · cases h
+      · next st hst =>
+        split at hst
+        · next e he => cases hst
+        · next st1 he =>
+          exfalso
+          split at he
+          · cases he
+          · split at he
+            · cases he
+            · split at he <;> cases he
+    | cons t0 tl =>
+      simp only [concatenate, htaxa] at h
+      split at h
+      · cases h
+      · next st hst =>
+        simp only [Except.ok.injEq] at h
+        subst h
+        exact (concatLoop_ok_iff m0.ns t0 tl m0.rows.length (m0 :: rest) ⟨[], [], 0⟩ 0).2.2 st hst
+
+/-- (a) when every source matrix carries a label and the labels are pairwise distinct up to case, each subset is
+    recorded under its matrix's own label -/
+theorem concat_labels_kept (ms : List Matrix) (r : Matrix) (h : concatenate ms = .ok r) (labs : List Label)
+    (hl : ms.map Matrix.label = labs.map some) (hnd : (labs.map lower).Nodup) :
+    r.subs.map Prod.fst = labs := by
+  rw [concat_subset_labels ms r h]
+  simpa using namedSpans_labels_kept ms labs [] 0 0 hl (by simpa using hnd)
+
+end DendroModel.C19
+
+namespace DendroModel.C19.Aux
+open DendroModel.C19
+
+theorem keys_set (t : Taxon) (r : Row) (rs : Rows) :
+    keys (set t r rs) = if t ∈ keys rs then keys rs else keys rs ++ [t] := by
+  induction rs with
+  | nil => simp [set, keys]
+  | cons kv rest ih =>
+    obtain ⟨k, v⟩ := kv
+    simp only [keys] at ih
+    by_cases hk : k = t
+    · subst hk; simp [set, keys]
+    · by_cases hm : t ∈ List.map Prod.fst rest
+      · simp [set, keys, hk, ih, hm]
+      · simp [set, keys, hk, ih, hm, Ne.symm hk]
+
+theorem nodup_set (t : Taxon) (r : Row) (rs : Rows) (h : (keys rs).Nodup) : (keys (set t r rs)).Nodup := by
+  rw [keys_set]
+  split
+  · exact h
+  · next hm =>
+    rw [List.nodup_append]
+    refine ⟨h, by simp, ?_⟩
+    intro a ha b hb
+    simp only [List.mem_singleton] at hb
+    subst hb
+    intro hab
+    subst hab
+    exact hm ha
+
+theorem nodup_del (t : Taxon) (rs : Rows) (h : (keys rs).Nodup) : (keys (del t rs)).Nodup := by
+  induction rs with
+  | nil => simp [del, keys]
+  | cons kv rest ih =>
+    obtain ⟨k, v⟩ := kv
+    simp only [keys, List.map_cons, List.nodup_cons] at h
+    simp only [keys, del] at ih
+    by_cases hk : k = t
+    · subst hk
+      simpa [del, keys, List.filter_cons] using ih h.2
+    · simp only [del, keys, List.filter_cons, bne_iff_ne, ne_eq, hk, not_false_eq_true, if_true,
+        List.map_cons, List.nodup_cons]
+      refine ⟨?_, ih h.2⟩
+      intro hm
+      apply h.1
+      simp only [List.mem_map] at hm ⊢
+      obtain ⟨x, hx, hxk⟩ := hm
+      exact ⟨x, (List.mem_filter.mp hx).1, hxk⟩
+
+theorem nodup_foldl {α} (step : Rows → α → Rows) (hstep : ∀ acc a, (keys acc).Nodup → (keys (step acc a)).Nodup)
+    (l : List α) (rs : Rows) (h : (keys rs).Nodup) : (keys (l.foldl step rs)).Nodup := by
+  induction l generalizing rs with
+  | nil => exact h
+  | cons a as ih => exact ih _ (hstep rs a h)
+
+theorem removeSeqs_nodup (taxa : List Taxon) (rs : Rows) (h : (keys rs).Nodup) :
+    (keys (removeSeqs taxa rs).1).Nodup := by
+  induction taxa generalizing rs with
+  | nil => exact h
+  | cons t ts ih =>
+    simp only [removeSeqs]
+    split
+    · exact ih _ (nodup_del t rs h)
+    · exact h
+
+theorem has_of_mem_keys (t : Taxon) (rs : Rows) (h : t ∈ keys rs) : has t rs = true := by
+  cases hg : get? t rs with
+  | some r => simp [has_eq, hg]
+  | none =>
+    exfalso
+    induction rs with
+    | nil => simp [keys] at h
+    | cons kv rest ih =>
+      obtain ⟨k, v⟩ := kv
+      by_cases hk : k = t
+      · simp [get?, hk] at hg
+      · simp only [get?, hk, if_false] at hg
+        simp only [keys, List.map_cons, List.mem_cons] at h
+        rcases h with h | h
+        · exact hk h.symm
+        · exact ih h hg
+
+end DendroModel.C19.Aux
+
+namespace DendroModel.C19
+open DendroModel.C19.Aux
+
+/-- "all sequences of these operations": every operation keeps the row store a dict (distinct keys), so the hypotheses
+    `(keys _).Nodup` of the specifications hold along every history that starts from dicts -/
+theorem keys_nodup_preserved (s o : Rows) (hs : (keys s).Nodup) :
+    (keys (addSeqs s o)).Nodup ∧ (keys (replaceSeqs s o)).Nodup ∧ (keys (updateSeqs s o)).Nodup ∧
+    (∀ b, (keys (extendSeqs b s o)).Nodup) ∧ (keys (extendMatrix s o)).Nodup ∧
+    (∀ taxa, (keys (removeSeqs taxa s).1).Nodup ∧ (keys (discardSeqs taxa s)).Nodup ∧ (keys (keepSeqs taxa s)).Nodup ∧
+      (keys (fillTaxa taxa s)).Nodup ∧ (∀ f, (keys (mapNsRows f taxa s)).Nodup)) := by
+  have fin : ∀ {α} (step : Rows → α → Rows) (l : List α),
+      (∀ acc a, (keys acc).Nodup → (keys (step acc a)).Nodup) → (keys (l.foldl step s)).Nodup :=
+    fun step l hstep => nodup_foldl step hstep l s hs
+  refine ⟨?_, ?_, ?_, ?_, ?_, ?_⟩
+  · exact fin _ o (fun acc a h => by
+      split <;> first | exact h | exact nodup_set _ _ _ h)
+  · exact fin _ o (fun acc a h => by
+      split <;> first | exact h | exact nodup_set _ _ _ h)
+  · exact fin _ o (fun acc a h => nodup_set _ _ _ h)
+  · intro b
+    exact fin _ o (fun acc a h => by
+      repeat' split
+      all_goals first | exact h | exact nodup_set _ _ _ h)
+  · exact fin _ o (fun acc a h => by
+      split <;> exact nodup_set _ _ _ h)
+  · intro taxa
+    refine ⟨removeSeqs_nodup taxa s hs, ?_, ?_, ?_, ?_⟩
+    · exact fin _ taxa (fun acc a h => by
+        split <;> first | exact h | exact nodup_del _ _ h)
+    · exact fin _ (keys s) (fun acc a h => by
+        split <;> first | exact h | exact nodup_del _ _ h)
+    · exact fin _ taxa (fun acc a h => by
+        split <;> first | exact h | exact nodup_set _ _ _ h)
+    · intro f
+      exact fin _ taxa (fun acc a h => by
+        split <;> first | exact h | exact nodup_set _ _ _ h)
+
+/-- the result of `concatenate` is a dict again -/
+theorem concat_keys_nodup (ms : List Matrix) (r : Matrix) (h : concatenate ms = .ok r) : (keys r.rows).Nodup := by
+  have loop : ∀ (ns : Nat) (taxa : List Taxon) (nseqs : Nat) (ms : List Matrix) (st st' : CState) (cidx : Nat),
+      concatLoop ns taxa nseqs st cidx ms = .ok st' → (keys st.acc).Nodup → (keys st'.acc).Nodup := by
+    intro ns taxa nseqs ms
+    induction ms with
+    | nil => intro st st' cidx h hn; simp only [concatLoop, Except.ok.injEq] at h; subst h; exact hn
+    | cons cm rest ih =>
+      intro st st' cidx h hn
+      simp only [concatLoop] at h
+      split at h
+      · cases h
+      · next st1 hstep =>
+        have hacc := (concatStep_ok _ _ _ _ _ _ _ hstep).2.1
+        exact ih st1 st' _ h (by rw [hacc]; exact (keys_nodup_preserved st.acc cm.rows hn).2.2.2.2.1)
+  cases ms with
+  | nil => simp [concatenate] at h
+  | cons m0 rest =>
+    simp only [concatenate] at h
+    split at h
+    · cases h
+    · next st hst =>
+      simp only [Except.ok.injEq] at h
+      subst h
+      exact loop _ _ _ _ _ _ _ hst (by simp [keys])
+
+/-- `extend_matrix`: union of the two row sets; shared rows are `self`'s cells followed by `other`'s -/
+theorem extendMatrix_spec (s o : Rows) (hnd : (keys o).Nodup) (t : Taxon) :
+    get? t (extendMatrix s o) = match get? t s, get? t o with
+      | some a, some b => some (a ++ b)
+      | some a, none => some a
+      | none, some b => some b
+      | none, none => none := by
+  rw [extendMatrix_eq, extend_spec true s o hnd t]
+  cases get? t s <;> cases get? t o <;> simp
+
+/-- (d, e) the binary row operations as methods: over the same namespace the call succeeds and changes nothing but the
+    rows (namespace, label and subsets of `self` are kept, the rows are the operation's); over a different namespace
+    it is refused with `ValueError` and there is no result -/
+theorem rowOp_spec (f : Rows → Rows → Rows) (self other : Matrix) :
+    (other.ns = self.ns ∧ ∃ r, rowOp f self other = .ok r ∧ r.rows = f self.rows other.rows ∧ r.ns = self.ns ∧
+        r.taxa = self.taxa ∧ r.label = self.label ∧ r.subs = self.subs) ∨
+    (other.ns ≠ self.ns ∧ rowOp f self other = .error .valueError) := by
+  by_cases h : other.ns = self.ns
+  · left; exact ⟨h, { self with rows := f self.rows other.rows }, by simp [rowOp, h], rfl, rfl, rfl, rfl, rfl⟩
+  · right; exact ⟨h, by simp [rowOp, h]⟩
+
+/-- (c) when every row belongs to a namespace taxon (the documented state of a matrix), `fill` to at least the longest
+    row leaves ALL sequences of the matrix equally long -/
+theorem fill_all_equal (value : Cell) (size : Option Nat) (append : Bool) (taxa : List Taxon) (hnd : taxa.Nodup)
+    (rs : Rows) (hin : ∀ k ∈ keys rs, k ∈ taxa) (hsize : maxLen taxa rs ≤ fillSize size taxa rs)
+    (t : Taxon) (r : Row) (h : get? t (fillRows value size append taxa rs) = some r) :
+    r.length = fillSize size taxa rs := by
+  by_cases ht : t ∈ taxa
+  · exact fill_equal_length value size append taxa hnd rs hsize t ht r h
+  · rw [fill_spec value size append taxa hnd rs t] at h
+    simp only [ht, if_false] at h
+    exact absurd (hin t (mem_keys_of_get? t rs r h)) ht
+
+/-- (c) `pack` with no size, or with any size not below the longest row, leaves all rows of the namespace equally long -/
+theorem pack_equal_length_sized (value : Cell) (size : Option Nat) (append : Bool) (taxa : List Taxon)
+    (hnd : taxa.Nodup) (rs : Rows)
+    (hsize : maxLen taxa (fillTaxa taxa rs) ≤ fillSize size taxa (fillTaxa taxa rs))
+    (t : Taxon) (ht : t ∈ taxa) :
+    (rowOf t (packRows value size append taxa rs)).length = fillSize size taxa (fillTaxa taxa rs) := by
+  have h1 := pack_spec value size append taxa hnd rs t ht
+  have := fill_equal_length value size append taxa hnd (fillTaxa taxa rs) hsize t ht _ (by simpa [packRows] using h1)
+  simp only [rowOf, h1, Option.getD_some]
+  exact this
+
+/-- (a) completeness is forced: in a successful concatenation every source matrix whose rows are a dict keyed by
+    namespace taxa has a row for EVERY taxon of the (duplicate-free) namespace — `len(cm) == len(taxon_namespace)` -/
+theorem concat_all_present (m0 : Matrix) (rest : List Matrix) (r : Matrix) (h : concatenate (m0 :: rest) = .ok r)
+    (htx : m0.taxa ≠ []) (m : Matrix) (hm : m ∈ m0 :: rest) (hnd : (keys m.rows).Nodup)
+    (hin : ∀ k ∈ keys m.rows, k ∈ m0.taxa) (t : Taxon) (ht : t ∈ m0.taxa) : has t m.rows = true := by
+  have hc := (concat_ok_iff m0 rest htx).mp ⟨r, h⟩ m hm
+  have hlen : m0.taxa.length ≤ (keys m.rows).length := by simp [keys, hc.2.1]
+  exact has_of_mem_keys t m.rows (subset_of_nodup_length (keys m.rows) m0.taxa hnd hin hlen t ht)
+
+end DendroModel.C19
+
+/-! ## non-vacuity of the success / refusal / invariant theorems -/
+namespace DendroModel.C19.Aux
+open DendroModel.C19
+
+theorem ex_concatenable : ∀ m ∈ [mA, mB], Concatenable mA.ns mA.taxa mA.rows.length m := by
+  intro m hm
+  simp only [List.mem_cons, List.not_mem_nil, or_false] at hm
+  rcases hm with rfl | rfl <;> (unfold Concatenable; decide)
+
+example : ∃ r, concatenate [mA, mB] = .ok r := concat_succeeds mA [mB] (by decide) ex_concatenable
+example : concatenate [mA, { mB with ns := 1 }] = .error .valueError :=
+  concat_refuses_foreign mA [{ mB with ns := 1 }] (by decide) { mB with ns := 1 } (by simp) (by decide)
+example : ¬ Concatenable mA.ns mA.taxa mA.rows.length { mB with rows := [(1, [5])] } := by
+  unfold Concatenable; decide
+example : [mA, { mB with label := some ['y'] }].map Matrix.label = [['x'], ['y']].map some ∧
+    ([['x'], ['y']].map lower).Nodup := by decide
+example : (keys mA.rows).Nodup ∧ ∀ k ∈ keys mB.rows, k ∈ mA.taxa := by decide
+example : maxLen mA.taxa (fillTaxa mA.taxa [(0, [1, 2])]) ≤ fillSize (some 5) mA.taxa (fillTaxa mA.taxa [(0, [1, 2])]) := by
+  decide
+
+end DendroModel.C19.Aux
+
+namespace DendroModel.C19
+
+/-- boundary of the model (and of the code: `cm[0]` raises `IndexError`, or the row count check `ValueError`):
+    over an empty namespace nothing is ever concatenated -/
+theorem concat_empty_namespace_refused (m0 : Matrix) (rest : List Matrix) (ht : m0.taxa = []) (r : Matrix) :
+    concatenate (m0 :: rest) ≠ .ok r := by
+  intro h
+  simp only [concatenate, ht, concatLoop, concatStep] at h
+  split at h
+  · cases h
+  · next st hst =>
+    split at hst
+    · cases hst
+    · next st1 he =>
+      split at he
+      · cases he
+      · split at he
+        · cases he
+        · split at he <;> cases he
 
 end DendroModel.C19
